@@ -4,6 +4,7 @@ package zzverif
 // Exhaustive over (N1 names ∪ table names) × argument counts 0..4 × option sets.
 
 import (
+	"strconv"
 	"errors"
 	"fmt"
 	"sort"
@@ -21,6 +22,9 @@ type c16Case struct {
 	N    int    `json:"n"`
 	Exp  bool   `json:"experimental"` // compile WithExperimentalFuncs
 	Kind string `json:"kind"`         // arity | example
+	// Odd: the literal arguments are replaced by well-typed but unusable values (a string that
+	// is no regular expression, an integer at a boundary): acceptance depends on name and count only
+	Odd int `json:"odd,omitempty"`
 }
 
 func c16Names() []string {
@@ -47,6 +51,11 @@ func c16Enum(yield func(c16Case)) {
 		for k := 0; k <= 4; k++ {
 			yield(c16Case{Name: n, N: k, Exp: false, Kind: "arity"})
 			yield(c16Case{Name: n, N: k, Exp: true, Kind: "arity"})
+			if k >= 1 {
+				for odd := 1; odd <= 3; odd++ {
+					yield(c16Case{Name: n, N: k, Exp: odd == 2, Kind: "arity", Odd: odd})
+				}
+			}
 		}
 		if sp, ok := fnSpecByName[n]; ok && sp.Example != "" {
 			yield(c16Case{Name: n, Exp: sp.Spec == "STU", Kind: "example"})
@@ -63,7 +72,7 @@ func c16Table(exp bool) funcs.FunctionTable {
 	return t
 }
 
-func c16Source(name string, n int) string {
+func c16Source(name string, n int, odd int) string {
 	sp, ok := fnSpecByName[name]
 	recv := "%ints"
 	var args []string
@@ -77,6 +86,15 @@ func c16Source(name string, n int) string {
 		args = append(args, "1")
 	}
 	args = args[:n]
+	if odd > 0 {
+		for i := range args {
+			if strings.HasPrefix(args[i], "'") {
+				args[i] = c07OddStr[odd]
+			} else if _, err := strconv.Atoi(args[i]); err == nil {
+				args[i] = c07OddInt[odd]
+			}
+		}
+	}
 	if ok && sp.Recv == "" {
 		return name + "(" + strings.Join(args, ", ") + ")"
 	}
@@ -133,9 +151,9 @@ func c16Run(ctx *Ctx, c c16Case) {
 		return
 	}
 
-	src := c16Source(c.Name, c.N)
+	src := c16Source(c.Name, c.N, c.Odd)
 	inSpecRange := inSpec && c.N >= sp.Min && c.N <= sp.Max
-	ctx.Eval(fmt.Sprintf("%s|%d|%v", c.Name, c.N, c.Exp), inSpecRange || inTable, "kind:arity")
+	ctx.Eval(fmt.Sprintf("%s|%d|%v|%d", c.Name, c.N, c.Exp, c.Odd), inSpecRange || inTable, "kind:arity", fmt.Sprintf("odd-arguments:%v", c.Odd > 0))
 	e, cerr, pan, _ := compileGuarded(src, copts...)
 	if pan != "" {
 		ctx.Fail("Compile panics for "+c.Name, src+": "+pan)
